@@ -132,6 +132,8 @@ package kube
 //@   oncall v1.(DeploymentInterface).Create 1 assert len(callarg1.Spec.Template.Spec.Containers) == 1 && lockedDown(callarg1.Spec.Template.Spec.Containers[0])
 //@   oncall v1.(DeploymentInterface).Update 1 assert len(callarg1.Spec.Template.Spec.Containers) == 1 && lockedDown(callarg1.Spec.Template.Spec.Containers[0])
 
+// (for network policies also: what is sent to the cluster on create AND on update is the freshly built policy, so a
+// policy follows the manifest when a lease is deployed again)
 // services, ingresses, network policies and the manifest record: same namespace rule (their builders are trusted
 // here: only where the objects are put is decided, not what they contain)
 //@ import akashclient "github.com/ovrclk/akash/pkg/client/clientset/versioned"
@@ -245,6 +247,8 @@ package kube
 //@   oncall v1.(NetworkingV1Interface).NetworkPolicies 1 assert callarg0 == nsOf(b.lid)
 //@   oncall v1.(NetworkingV1Interface).NetworkPolicies 2 assert callarg0 == nsOf(b.lid)
 //@   oncall v1.(NetworkingV1Interface).NetworkPolicies 3 assert callarg0 == nsOf(b.lid)
+//@   oncall v1.(NetworkPolicyInterface).Update 1 assert callarg1 == pol
+//@   oncall v1.(NetworkPolicyInterface).Create 1 assert callarg1 == pol
 //@   loop 1 modifies nothing
 //@   loop 1 invariant 0 <= iter
 //@ func applyManifest
